@@ -3,6 +3,7 @@ import ZoektModel.C01.Spec
 import ZoektModel.C01.BTree
 import ZoektModel.C01.Word
 import ZoektModel.C01.Select
+import ZoektModel.C01.CaseVariants
 namespace ZoektModel.C01
 open ZoektModel ZoektModel.Proto
 
@@ -170,6 +171,29 @@ def handleSelect (pat freqs impl : String) : String :=
     | _ => badCase "impl output"
   | _, _ => badCase "fields"
 
+/-- `casengrams <r0,r1,r2> <fold table c:f,c:f,…>`: the variants `generateCaseNgrams` yields, in order; `fold` is
+    `unicode.SimpleFold` on the runes of the table (identity elsewhere). Spec on the implementation's answer: every
+    triple of the product of the three fold orbits is among the variants. -/
+def handleCase (runes table impl : String) : String :=
+  let pairs? : Option (List (Nat × Nat)) :=
+    if table == "-" then some [] else (table.splitOn ",").mapM fun e =>
+      match e.splitOn ":" with
+      | [a, b] => do pure (← a.toNat?, ← b.toNat?)
+      | _ => Option.none
+  match natList? runes, pairs? with
+  | some orig, some pairs =>
+    let fold : Nat → Nat := fun c => match pairs.find? (·.1 == c) with | some p => p.2 | Option.none => c
+    let vs := generateCase fold orig 300
+    let showT (t : List Nat) : String := ".".intercalate (t.map toString)
+    let model := "variants=" ++ "|".intercalate (vs.map showT)
+    let orbit (c : Nat) : List Nat := (List.range 8).map (fun j => Nat.repeat fold j c)
+    let product := (orig.map orbit).foldr (fun os acc => os.flatMap fun x => acc.map (x :: ·)) [[]]
+    let implVs := ((impl.drop 9).toString.splitOn "|")
+    if !impl.startsWith "variants=" then badCase "impl output"
+    else if product.all (fun t => implVs.contains (showT t)) then answer model
+    else specFail model "case-variants-miss-an-orbit-member"
+  | _, _ => badCase "fields"
+
 def handle (line : String) : String :=
   let (inp, impl) := splitCase line
   match fields inp with
@@ -177,6 +201,7 @@ def handle (line : String) : String :=
   | ["btree", b, v, ngs, qs] => handleBtree b v ngs qs impl
   | ["word", d, w] => handleWord d w impl
   | ["select", p, fr] => handleSelect p fr impl
+  | ["casengrams", rs, tb] => handleCase rs tb impl
   | _ => badCase "op"
 
 def main : IO Unit := runLines handle
